@@ -1,7 +1,8 @@
 (* C05 — No peer-controlled input can panic or wedge a connection.  Statements only; proofs in
-   Conn/Session.v, Conn/RecvGate.v, Framing/FramingProofs.v.  Nothing else may be added. *)
+   Conn/Session.v, Conn/RecvGate.v, Framing/FramingProofs.v, Conn/TasBounds.v, Conn/NoPanic.v (on top of the
+   ownership invariant of Conn/Own*.v).  Nothing else may be added. *)
 From MQ Require Import Base.Prelude Framing.Framing Conn.Types Conn.ConnRecord Conn.Step Corr.ConnTrace
-                       Conn.RecvGate Conn.Session.
+                       Conn.RecvGate Conn.Session Conn.Run Conn.TopicAlias Conn.Own Conn.OwnFrame Conn.OwnStep Conn.TasBounds Conn.NoPanic.
 
 (* every state: after the transport is reported closed the object is Disconnected with an empty
    frame builder ... *)
@@ -24,15 +25,67 @@ Theorem C05_error_reported : forall c v e, err_outcome c e (handle_error c v e).
 Proof. exact handle_error_outcome. Qed.
 Print Assumptions C05_error_reported.
 
-(* C05_partial: "no call panics" for all histories is decided by running every call of the
-   implementation under catch_unwind in debug and release builds (monitor mon_c05: a panic, or a
-   received frame that is neither delivered, answered nor reported, is a violation) and by the
-   correspondence with the model, whose Panic outcomes mark exactly the unwrap/assert sites of
-   core.rs; totality and termination of the model functions are by construction (structural
-   recursion accepted by the kernel).  Known finding F-05c is reported as KNOWN-FINDING. *)
+(* NO CALL OF THE MODEL PANICS.  The model's Panic outcomes mark the unwrap / assert / unreachable sites of
+   core.rs (store.add(..).unwrap() on a duplicate identifier; release of an identifier that is not in use;
+   the assertions of the topic-alias tables: empty topic, alias outside 1..=max, get_lru_alias on a table of
+   size 0; assert!(val != 0) on a received Receive Maximum / Maximum Packet Size; "protocol version should
+   be set").  [J g c]: the ownership invariant OWN (Conn/Own.v), the bounds of the send-side alias table TAS
+   (Conn/TasBounds.v) and a determined version.  From EVERY state with J, EVERY call — whatever bytes the peer
+   sends, whatever the timers do — returns normally and re-establishes J, under the contract [np_contract]:
+   the application hands send() identifiers it holds, does not release a stored packet's identifier, restores
+   packets of this version with identifiers awaited nowhere (own_op_ok); and what the PARSER guarantees
+   about an accepted packet: Receive Maximum / Maximum Packet Size are not 0 and Topic Alias Maximum is a
+   two-byte integer (np_op_ok, tam_op_ok).  Nothing is assumed about the sequence of received packets. *)
+Theorem C05_step_no_panic : forall g c o,
+  J g c -> np_contract c o ->
+  match step g c o with Ok (c', _, _) => J g c' | Panic _ => False end.
+Proof. exact step_keeps_J. Qed.
+Print Assumptions C05_step_no_panic.
+
+Theorem C05_history_no_panic : forall g ops c,
+  J g c -> np_history_ok g c ops ->
+  match run_state g c ops with Some c' => J g c' | None => False end.
+Proof. exact history_no_panic. Qed.
+Print Assumptions C05_history_no_panic.
+
+Theorem C05_fresh_history_no_panic : forall g v ops,
+  1 <= g_idmax g -> v <> VUndet -> np_history_ok g (conn_new g v) ops ->
+  match run_state g (conn_new g v) ops with Some c' => J g c' | None => False end.
+Proof. exact fresh_history_no_panic. Qed.
+Print Assumptions C05_fresh_history_no_panic.
+
+(* the alias-table bounds alone are kept by every call (no application contract needed) *)
+Theorem C05_step_keeps_alias_bounds : forall g c o, tam_op_ok o -> TAS c ->
+  match step g c o with Ok (c', _, _) => TAS c' | Panic _ => True end.
+Proof. exact step_keeps_TAS. Qed.
+Print Assumptions C05_step_keeps_alias_bounds.
+
+(* C05_partial: the theorems above are about the MODEL (determined version; an endpoint created as
+   Undetermined panics in the model only when a timer fires before its first CONNECT, which the contract
+   "only armed timers fire" excludes).  For the implementation, "no call panics" is decided by running every
+   call under catch_unwind in a debug build (monitor mon_c05: a panic — of the call or of a getter read
+   after it —, or a received frame that is neither delivered, answered nor reported, is a violation) and by
+   the correspondence with the model; totality and termination of the model functions are by construction
+   (structural recursion accepted by the kernel).  Known finding F-05c is reported as KNOWN-FINDING. *)
 
 Example C05_nonvacuous :
   let g := mkCfg RClient 65535 2 in
   let c := set_status (conn_new g V311) Connected in
   match do_closed c with Ok (c', _) => c_status c' = Disconnected | Panic _ => False end.
 Proof. vm_compute. reflexivity. Qed.
+
+(* the no-panic history theorem's premises are satisfiable on a history with stored packets, a resume that
+   drops one of them as oversize, an acknowledgement for nothing in flight and a timer *)
+Example C05_no_panic_nonvacuous :
+  let g := mkCfg RClient 65535 2 in
+  let cn := mkPkt 1 V50 0 0 false false [] None 0 0 20 false 0 false 10 None None None (Some 100) None in
+  let ca1 := mkPkt 2 V50 0 0 false false [] None 0 0 5 true 0 false 0 (Some 3) None None None None in
+  let ca2 := mkPkt 2 V50 0 0 false false [] None 0 0 10 true 0 true 0 None None (Some 50) None None in
+  let pb1 := mkPkt 3 V50 1 1 false false [116] None 0 100 107 false 0 false 0 None None None None None in
+  let pb2 := mkPkt 3 V50 2 2 false false [116] None 0 0 7 false 0 false 0 None None None None None in
+  let ack9 := mkPkt 4 V50 9 0 false false [] None 0 0 4 false 0 false 0 None None None None None in
+  let ops := [OSend cn; ORecv [32;3;0;0;0] (PROk ca1); OSetAutoMap true; OAcquire; OSend pb1; OAcquire; OSend pb2;
+              ORecv [64;2;0;9] (PROk ack9); OTimer TPingreqSend; OClosed; OSend cn; ORecv [32;3;1;0;0] (PROk ca2)] in
+  np_history_ok g (conn_new g V50) ops /\
+  match run_state g (conn_new g V50) ops with Some c' => map k_pid (c_store c') = [2] | None => False end.
+Proof. vm_compute. repeat split; try reflexivity; try discriminate; intros; try discriminate. Qed.
